@@ -94,7 +94,7 @@ func genScript(r *hx.Rand, d *graphs.Desc, in *graphs.Instance, printable map[in
 			continue
 		}
 		container := nd.Kind == "list" || nd.Kind == "dict" || nd.Kind == "set" || nd.Kind == "tuple" || nd.Kind == "tslice" || nd.Kind == "tcat"
-		switch r.Intn(17) {
+		switch r.Intn(21) {
 		case 0:
 			if container {
 				ops = append(ops, COp{N: "len", Node: id})
@@ -183,6 +183,18 @@ func genScript(r *hx.Rand, d *graphs.Desc, in *graphs.Instance, printable map[in
 			if es := graphs.DerivExprs[nd.Kind]; len(es) > 0 {
 				ops = append(ops, COp{N: "derive", Node: id, I: r.Intn(len(es)), B: r.Intn(len(graphs.DerivedMuts)), Via: "mut"})
 			}
+		case 17, 18: // in-place mutation by Starlark statements of every form: must be rejected
+			if ms := mutScripts[nd.Kind]; len(ms) > 0 {
+				ops = append(ops, COp{N: "mscript", Node: id, I: r.Intn(len(ms))})
+			}
+		case 19, 20: // set comparisons and set algebra with another shared set / an iterable
+			if nd.Kind == "set" {
+				other := r.Intn(n)
+				if in.Objs[other] == nil || (allowed != nil && !allowed[other]) {
+					other = id
+				}
+				ops = append(ops, COp{N: "setop", Node: id, B: other, I: r.Intn(12)})
+			}
 		case 16: // read-only operators: concatenation, repetition, slicing
 			if es := graphs.ReadOnlyExprs[nd.Kind]; len(es) > 0 {
 				ops = append(ops, COp{N: "derive", Node: id, I: r.Intn(len(es)), A: int64(100 + r.Intn(900)), Via: "ro"})
@@ -201,6 +213,18 @@ var scriptSrc = []string{
 	"keep = x\nalso = [x, (x,)]\nout = len(also)\n",
 	// a rejected mutation: fails, with a backtrace
 	"def f(v):\n    v.clear()\nout = 1\nf(x)\n",
+}
+
+// mutScripts: Starlark code that mutates v IN PLACE through every statement form and
+// operand kind (augmented assignment with a list / tuple / range / dict / set / string
+// iterable, item assignment, methods with non-list iterables).  On a frozen value each
+// must fail.
+var mutScripts = map[string][]string{
+	"list": {"v += [7]", "v += (7,)", "v += range(2)", "v += {7: 1}", "v += set([7])", "v += \"ab\".elems()", "v += \"ab\".codepoints()",
+		"v[0:0] = [7]" /* not supported: must fail anyway */, "v.extend((7,))", "v.extend(range(2))", "v.extend({7: 1})", "v.extend(\"ab\".elems())",
+		"v.insert(0, 7)", "v.append(7)", "v.clear()", "v[len(v) - 1] = 7" /* index error on an empty list: fails too */},
+	"dict": {"v[7] = 7", "v |= {7: 7}", "v.update({7: 7})", "v.update([(7, 7)])", "v.update(((7, 7),))", "v.update(k = 7)", "v.setdefault(7777, 7)", "v.clear()", "v.pop(7777, 0) if False else v.clear()"},
+	"set":  {"v.add(7777)", "v.update((7777,))", "v.update(range(3))", "v.update({7777: 1})", "v.clear() if len(v) else v.add(1)", "v.discard(7777)"},
 }
 
 var fileOpts = &syntax.FileOptions{Set: true, GlobalReassign: true, TopLevelControl: true}
@@ -273,6 +297,25 @@ func runOp(in *graphs.Instance, th *starlark.Thread, op COp) (out []Res) {
 			}
 		}
 		return append(out, Res{"stop"}, Res{"unit"})
+	case "mscript":
+		src := "def f(v):\n    " + mutScripts[in.D.Nodes[op.Node].Kind][op.I] + "\nf(x)\n"
+		_, err := starlark.ExecFileOptions(fileOpts, th, "mut.star", src, starlark.StringDict{"x": v})
+		if err != nil {
+			return []Res{{"err"}}
+		}
+		return []Res{{"unit"}}
+	case "setop":
+		exprs := []string{"x <= y", "x < y", "x >= y", "x > y", "x == y", "x.issubset(y)", "x.issuperset(y)", "x.issubset(list(y))",
+			"len(x.union(y))", "len(x.intersection(y))", "len(x.difference(y))", "len(x.symmetric_difference(y))"}
+		y := in.Objs[op.B]
+		if _, ok := y.(*starlark.Set); !ok {
+			y = v
+		}
+		r, err := starlark.EvalOptions(graphs.EvalOpts, th, "setop", exprs[op.I], starlark.StringDict{"x": v, "y": y})
+		if err != nil {
+			return []Res{{"str", "setop-err"}}
+		}
+		return []Res{{"str", r.String()}}
 	case "derive":
 		kind := in.D.Nodes[op.Node].Kind
 		var d starlark.Value
@@ -460,6 +503,7 @@ func scenarioValues(seed uint64, n, rounds, scriptLen int, full bool) {
 		var allowed map[int]bool
 		if round == 0 {
 			d = graphs.Corner()
+			allowed = d.Reach() // some of its values are operands only and stay private
 		} else if round%3 == 2 {
 			// a module as C04 generates them: only what is reachable from its globals (through whatever
 			// edge: dict keys, closures, receivers, defaults ...) is shared; threads touch nothing else
@@ -538,8 +582,12 @@ func scenarioValues(seed uint64, n, rounds, scriptLen int, full bool) {
 					oj, _ := json.Marshal(scripts[t][i])
 					o.Diff = fmt.Sprintf("thread %d op %d %s: alone %s, concurrently %s", t, i, oj, a, b)
 				}
-				if scripts[t][i].N == "mutate" && len(solo[t][i]) == 1 && solo[t][i][0][0] == "unit" {
+				if (scripts[t][i].N == "mutate" || scripts[t][i].N == "mscript") && len(solo[t][i]) == 1 && solo[t][i][0][0] == "unit" {
 					oj, _ := json.Marshal(scripts[t][i])
+					if scripts[t][i].N == "mscript" {
+						k := d.Nodes[scripts[t][i].Node].Kind
+						oj = []byte("mscript " + k + ": " + mutScripts[k][scripts[t][i].I])
+					}
 					o.Accepted = append(o.Accepted, string(oj))
 				}
 			}
@@ -1164,6 +1212,80 @@ func scenarioFootprints(seed uint64, rounds int) {
 							case *starlark.List, *starlark.Dict, *starlark.Set:
 								m.F(th, dv)
 							}
+						})
+					}
+				}
+			}
+		}
+		// observed from INSIDE: operations that consume another iterable, or call back a key
+		// function, while they work on a frozen value -- the value's state is read in the
+		// middle of the operation (a counter bumped and restored is invisible afterwards)
+		{
+			in := graphs.Instantiate(d, src)
+			th := &starlark.Thread{Name: "spy"}
+			iterMethods := map[string][]string{
+				"set":  {"issubset", "issuperset", "union", "intersection", "difference", "symmetric_difference", "update"},
+				"list": {"extend"},
+				"dict": {"update"},
+			}
+			for id, nd := range d.Nodes {
+				v := in.Objs[id]
+				if v == nil {
+					continue
+				}
+				before := stateOfNodes(in, id)
+				if before[id].frozen != 1 {
+					continue // only frozen values: nothing at all may be written
+				}
+				watch := func(how string, run func(peek func())) {
+					var ws []Write
+					peek := func() {
+						if ws == nil {
+							ws = diffStates(before, stateOfNodes(in, id))
+						}
+					}
+					func() {
+						defer func() { recover() }()
+						run(peek)
+					}()
+					ws = append(ws, diffStates(before, stateOfNodes(in, id))...)
+					o.NDerived++
+					if len(ws) > 0 {
+						o.Derived = append(o.Derived, FDerived{Node: id, How: how, Mut: "(state read from inside the operation)", Writes: ws})
+					}
+				}
+				for _, m := range iterMethods[nd.Kind] {
+					m := m
+					watch("x."+m+"(<host iterable>)", func(peek func()) {
+						attr, _ := v.(starlark.HasAttrs).Attr(m)
+						spy := &graphs.Spy{Vals: []starlark.Value{starlark.MakeInt(20), starlark.MakeInt(5 + 4096), starlark.MakeInt(7)}, OnNext: peek}
+						starlark.Call(th, attr, starlark.Tuple{spy}, nil)
+					})
+				}
+				if _, ok := v.(starlark.Iterable); ok && starlark.Len(v) > 0 {
+					key := starlark.NewBuiltin("peek", func(_ *starlark.Thread, b *starlark.Builtin, _ starlark.Tuple, _ []starlark.Tuple) (starlark.Value, error) {
+						return starlark.MakeInt(0), nil
+					})
+					for _, fn := range []string{"sorted", "max", "min"} {
+						fn := fn
+						watch(fn+"(x, key=<host function>)", func(peek func()) {
+							k := starlark.NewBuiltin("peek", func(_ *starlark.Thread, _ *starlark.Builtin, _ starlark.Tuple, _ []starlark.Tuple) (starlark.Value, error) {
+								peek()
+								return starlark.MakeInt(0), nil
+							})
+							starlark.Call(th, starlark.Universe[fn], starlark.Tuple{v}, []starlark.Tuple{{starlark.String("key"), k}})
+						})
+					}
+					_ = key
+					for _, e := range []string{"[peek(e) for e in x]", "{peek(e): 0 for e in x}", "any([peek(e) for e in x])", "list(zip(x, spy))", "[a for a in enumerate(spy)] + [peek(e) for e in x]"} {
+						e := e
+						watch(e, func(peek func()) {
+							pk := starlark.NewBuiltin("peek", func(_ *starlark.Thread, _ *starlark.Builtin, _ starlark.Tuple, _ []starlark.Tuple) (starlark.Value, error) {
+								peek()
+								return starlark.MakeInt(0), nil
+							})
+							spy := &graphs.Spy{Vals: []starlark.Value{starlark.MakeInt(1), starlark.MakeInt(2)}, OnNext: peek}
+							starlark.EvalOptions(graphs.EvalOpts, th, "spy", e, starlark.StringDict{"x": v, "peek": pk, "spy": spy})
 						})
 					}
 				}
